@@ -100,7 +100,7 @@ def fires (c : Cfg) (p : Proc) (op : Op) : List String :=
     (if leavesEmptyBlock c p op t then ["emptyBlockAllocated"] else [])
   | .crashAt kind n fd (.batch _ ps) =>
     -- a strict, non-empty prefix of the batch reaches the disk (sequential path only)
-    (if kind = 0 ∧ !fd ∧ 0 < n ∧ (step c p op).2 = .crashed then ["batchNotCrashAtomic"] else [])
+    (if (kind = 0 ∨ kind = 8) ∧ !fd ∧ 0 < n ∧ (step c p op).2 = .crashed then ["batchNotCrashAtomic"] else [])
   | _ => []
 
 end WalrusVerif.Eng
